@@ -241,6 +241,8 @@ class ByteLoopInterp:
         def upto_first_zero(start):
             return ([seg((0, 255), (start, start))] if start else []) + [seg((1, 255), (0, INF))]
         if sl is None:
+            if env.get("#nz") == (1, 1):
+                return [seg((1, 255), env.get("#dlen", (0, INF)))]
             for k, start in self.find_info.items():
                 if env.get(k) == (-1, -1):           # no zero at or after `start`
                     return upto_first_zero(start)
@@ -343,7 +345,7 @@ class ByteLoopInterp:
                 if r is not None and r[0] == "buf":
                     return env[f"#len:{r[1]}"]
                 if r == ("data",):
-                    return (0, INF)
+                    return env.get("#dlen", (0, INF))
             run = None
             if fn == "len" and len(e.args) == 1 and isinstance(e.args[0], ast.Call) and ap(e.args[0].func) in ("list", "tuple", "bytes") \
                     and len(e.args[0].args) == 1:
@@ -395,6 +397,8 @@ class ByteLoopInterp:
             r = self.ref_of(e.args[0])
             if r is not None and r[0] == "buf":
                 return f"#len:{r[1]}"
+            if r == ("data",):
+                return "#dlen"
         return None
 
     @staticmethod
@@ -441,11 +445,22 @@ class ByteLoopInterp:
                 truth = is_none == isinstance(t.ops[0], ast.Is)
                 return (env, None) if truth else (None, env)
             op = t.ops[0]
+            if isinstance(t.left, ast.Call) and ap(t.left.func) == "type" and len(t.left.args) == 1:
+                return env, env             # `type(x) in (...)` / `type(x) is T`: unknown, both ways
+            if isinstance(op, (ast.In, ast.NotIn)) and self.ref_of(t.comparators[0]) == ("data",) and \
+                    isinstance(t.left, ast.Constant) and t.left.value in (0, b"\x00") and not isinstance(t.left.value, bool):
+                # `0 in <input>`: on the "not in" side every byte of the input is known to be non-zero
+                has, hasnt = env, {**env, "#nz": (1, 1)}
+                return (has, hasnt) if isinstance(op, ast.In) else (hasnt, has)
             if isinstance(op, (ast.Is, ast.IsNot)):
                 op = ast.Eq() if isinstance(op, ast.Is) else ast.NotEq()
             return self._cmp(t, t.left, op, t.comparators[0], env)
         if isinstance(t, ast.Constant):
             return (env, None) if t.value else (None, env)
+        if isinstance(t, ast.Call) and ap(t.func) == "isinstance" and len(t.args) == 2:
+            return env, env                 # what kind of buffer was passed is unknown: both ways
+        if isinstance(t, (ast.Name, ast.Attribute)) and self.key_of(t) in self.none_keys:
+            return None, env                # a parameter that is None at its default is falsy
         key = self._key(t)
         itv = self.ev(t, env)
         tr = itv
@@ -899,6 +914,7 @@ class ByteLoopInterp:
     def _bind_ref(self, tg, ref):
         if ref == ("data",) and isinstance(tg, ast.Name) and self.cur.refs.get(tg.id) == ("data",):
             self.find_info.clear()            # the input name now denotes other bytes: positions found before are stale
+            self.rebound_data = True
         if isinstance(tg, ast.Name):
             old = self.cur.refs.get(tg.id)
             if old is not None and old != ref:
@@ -1260,7 +1276,8 @@ class ByteLoopInterp:
 
     # ---- driver
     def run(self):
-        init = {"idle" if self.typestate else "-": {**({"#g": (0, 0), "#d": (0, 0)} if self.ghost else {}), **self.init_env}}
+        init = {"idle" if self.typestate else "-": {**({"#g": (0, 0), "#d": (0, 0)} if self.ghost else {}), **self.init_env,
+                                                    "#dlen": (0, INF), "#nz": (0, 0)}}
         fl = self.block(self.fn.body, init)
         if fl.next:
             self.bad(self.fn, "function can fall off its end without returning the buffer")
@@ -1390,14 +1407,48 @@ def r2(ctx):
 def r3(ctx):
     """The zero-coded header peek must expand all the bytes the header needs: same clause as C01.R6
     (window length >= 2*max message-number bytes + 2*extra length), re-run under a C03 rule id."""
-    from ..engine import RenamedCtx
-    from . import c01
-    c01.r6(RenamedCtx(ctx, {"C01.R6": "C03.R3"}))
+    import struct
+    from .common import as_pair, has_path_fact, linform, spec_symbol, struct_fmt_of_prim
+    repo = ctx.repo
+    ctx.rule("C03.R3", "zero-coded header peek window covers the worst case: length >= 2*(max msg-num bytes) "
+                       "+ 2*extra-length (every header byte may double under zero-coding) - and is a bounded prefix")
+    hf = repo.fn("UDPMessageDeserializer._parse_message_header")
+    dmod = hf.module
+    specs = repo.module_assign(dmod, "_MSG_NUM_SPECS")
+    ctx.require(isinstance(specs, (ast.Tuple, ast.List)), "_MSG_NUM_SPECS is not a tuple/list literal")
+    maxnum = 0
+    for i, row in enumerate(specs.elts):
+        pair = as_pair(repo, dmod, row)
+        ctx.require(pair is not None, f"_MSG_NUM_SPECS row {i} is neither a pair nor a 2-field NamedTuple")
+        fmt = struct_fmt_of_prim(repo, spec_symbol(pair[1]) or "")
+        ctx.require(fmt is not None, f"_MSG_NUM_SPECS row {i}: unknown spec {norm(pair[1])}")
+        maxnum = max(maxnum, i + struct.calcsize("<" + fmt))
+    cs0 = [c for c in find_calls(hf.node, "zero_code_expand") if has_path_fact(c, "zerocoded", True, hf.node)]
+    ctx.ob("C03.R3", "header expands a zero-coded prefix under msg.zerocoded", len(cs0) == 1, hf.where, f"found {len(cs0)}")
+    for c in cs0:
+        arg = c.args[0] if c.args else None
+        if isinstance(arg, ast.Name):
+            vals = [st.value for st in stores(hf.node, into_defs=False) if st.path == arg.id and st.value is not None]
+            arg = vals[-1] if vals else arg
+        if not (isinstance(arg, ast.Subscript) and isinstance(arg.slice, ast.Slice)) or arg.slice.upper is None:
+            continue            # judged by the bounded-prefix obligation below
+        hi = linform(repo, dmod, hf.node, arg.slice.upper)
+        lo = linform(repo, dmod, hf.node, arg.slice.lower) if arg.slice.lower is not None else {1: 0}
+        if hi is None or lo is None:
+            raise AnalysisError(f"C03.R3: header window bounds not linear: {norm(arg)}")
+        diff = dict(hi)
+        for k, v in lo.items():
+            diff[k] = diff.get(k, 0) - v
+        offs = [k for k in diff if k != 1 and diff[k] != 0]
+        b = sum(diff[k] for k in offs if str(k).endswith(".offset"))
+        others = [k for k in offs if not str(k).endswith(".offset")]
+        a = diff.get(1, 0)
+        ctx.ob("C03.R3", "header window length >= 2*max_msg_num + 2*offset", not others and b >= 2 and a >= 2 * maxnum,
+               ctx.w(hf, c), f"window length = {a} + {b}*offset{' + ' + str(others) if others else ''}; worst case needs "
+                             f"{2 * maxnum} + 2*offset (msg num {maxnum} bytes and the extra field are zero-coded too)")
     # ... and *only* those: the header stage must expand a bounded prefix of the still-encoded datagram.  Expanding
     # the whole datagram first lets the size cap (a property of the body) reject a packet whose header is fine, so
     # it can no longer be named / kept as a raw body and forwarded.
-    repo = ctx.repo
-    hf = repo.fn("UDPMessageDeserializer._parse_message_header")
     for c in find_calls(hf.node, "zero_code_expand"):
         arg = c.args[0] if c.args else None
         if isinstance(arg, ast.Name):
